@@ -10,7 +10,7 @@ EXTENDS Uri, Json
 CONSTANTS MaxLen, NameClasses
 
 Names == UNION {[1..m -> NameClasses] : m \in 1..MaxLen}
-DirsU == {"", "sub", "sub dir", "süb/deep"}
+DirsU == {"", "sub", "sub dir", "süb/deep", "v1.2"}
 Bases == {"plain", "with space", "trailing-slash", "ünï", "symlink"}
 
 VARIABLES name, dir, base, done
